@@ -1,9 +1,9 @@
 """C14 - encoding is a pure function of the document.
 
 Explicit-state exploration of the process-state machine on the real code.  Events: new(d), enc(d)
-for d in a pool of 11 documents (plain, coloured, paginated with own margins, table footnote/source on
-every page with an empty closing style, grouped, grouped-but-non-contiguous
-(its encode raises ValueError), multi-section, figure, and three documents that hold the same
+for d in a pool of 15 documents (plain, coloured, paginated with own margins, table footnote/source on
+every page with an empty closing style, the same long texts in a narrow and in a wide column, grouped, grouped-but-non-contiguous
+(its encode raises ValueError), multi-section (also with a wider last section), figure, and three documents that hold the same
 RTFBody / RTFColumnHeader / RTFPage / RTFSubline / RTFFootnote objects and the same DataFrame, with
 equal and with different column counts).  Canonical state = census of rtflite's process-global
 mutable state + field values of every pool document and shared component + DataFrame fingerprints.
@@ -35,7 +35,7 @@ LEVEL_TEXT = ("Every history of construct/encode events up to the stated depth i
               "compared with what fresh interpreters (3 hash seeds) return; the merged BFS extends this to longer histories up to its fixpoint or cap. "
               "Residual global state changes outputs only under particular histories, which is what an exhaustive history search enumerates.")
 LEVEL_NOTE = ("Trusted: the generic census/restore (asserted equal to pristine after every restore; representative histories re-run in fresh interpreters), "
-              "subprocess baselines. Bounds: pool of 11 documents, events {new, enc}, depth as in evidence.")
+              "subprocess baselines. Bounds: pool of 15 documents, events {new, enc}, depth as in evidence.")
 
 EVENTS = [(e, n) for n in HP.POOL_NAMES for e in ("new", "enc")]
 _SNAP = None
@@ -191,6 +191,8 @@ def eval_case(case: dict) -> dict:
             if d <= 0:
                 return
             for e in EVENTS:
+                if d == 1 and len(h) >= 2 and e[0] == "new":
+                    continue  # a trailing construct makes no observation beyond what depth 2 already checks
                 rec(h + [e], d - 1)
 
         rec(prefix, case["depth"])
@@ -247,7 +249,7 @@ def plan(run):
     from concurrent.futures import ThreadPoolExecutor
 
     quick = run.tier == "quick"
-    run.rule = ("events {new(d), enc(d)} over a pool of 11 documents; all histories of length <= k unmerged (every encode in every history compared with the "
+    run.rule = ("events {new(d), enc(d)} over a pool of 15 documents; all histories of length <= k unmerged (every encode in every history compared with the "
                 "fresh-interpreter baseline); breadth-first search over canonical states (census + component values + DataFrame fingerprints) with de-duplication; "
                 "representative histories re-executed in fresh interpreters. 'encode twice' is the history enc(d).enc(d). "
                 "non-trivial = distinct histories with >= 2 events; evaluations = histories executed")
@@ -258,7 +260,7 @@ def plan(run):
     os.environ["VERIF_C14_BASE"] = BASEFILE
     seeds = [0, 1, (run.seed % 1000) + 2]
     with ThreadPoolExecutor(6) as ex:
-        futs = [(s, half, ex.submit(fresh_results, half, s)) for s in seeds for half in (HP.POOL_NAMES[:6], HP.POOL_NAMES[6:])]
+        futs = [(s, half, ex.submit(fresh_results, half, s)) for s in seeds for half in (HP.POOL_NAMES[:5], HP.POOL_NAMES[5:10], HP.POOL_NAMES[10:])]
         per_seed = {}
         for s, half, f in futs:
             per_seed.setdefault(s, {}).update(f.result())
